@@ -120,7 +120,7 @@ def run_kani(names, timeout_s, jobs=8, unwind=None, extra_cbmc=(), target="kani-
         cmd += ["--harness", n]
     cmd += ["--exact", "--target-dir", os.path.join(WORK, target)]
     if jobs and jobs > 1 and len(names) > 1:
-        cmd += ["-j", str(min(jobs, len(names))), "--output-format", "regular"]
+        cmd += ["-j", str(min(jobs, len(names))), "--output-format", "terse"]
     if harness_timeout:
         cmd += ["--harness-timeout", "%ds" % harness_timeout]
     cmd += ["--cbmc-args"] + CBMC_FLAGS + list(extra_cbmc)
